@@ -41,6 +41,7 @@ func allProps() []*PropSpec {
 		propC09(),
 		propC03(),
 		propC04(),
+		propC01(),
 	}
 }
 
@@ -321,6 +322,37 @@ func propC04() *PropSpec {
 			js = append(js, jobsN("css", "VerifCSSBgPos", rng(1, 4), "background-position with n tokens")...)
 			js = append(js, jobsN("css", "VerifCSSFlex", rng(1, 3), "flex with n tokens")...)
 			js = append(js, Job{Pkg: "css", Fn: "VerifCSSTwin", N: 0, ExpectFail: true, Desc: "vacuity twin"})
+			return js
+		},
+	}
+}
+
+func propC01() *PropSpec {
+	return &PropSpec{
+		ID:   "C01",
+		Rule: "one case = one feasible path of (a) the literal kernels minifyString/replaceEscapes, isFalsy, hexadecimalNumber on symbolic literal bytes with ECMAScript reference decoders, (b) js.Minify end to end on programs generated from symbolic choices (fully parenthesised source), both source and output parsed by the dependency's parser and run by the mini reference evaluator on symbolic variable values and symbolic host-call results; non-trivial = completes with a distinct symbolic output",
+		Assumptions: []string{"program fragment: function m(a,b,c){...} with expression statements, assignments to globals/locals, var, if/else, return, throw; expressions over ! && || ?? ?: , == null === undefined assignment f(x) a.p void and literals", "reference evaluator value domain: undefined, null, booleans, small integers, empty/non-empty string, objects; host calls and property reads are trace events with fresh symbolic results", "paths on which either program leaves the evaluator's fragment are assumed away (not covered)", "literal kernels: alphabets and unit lists in harness/js/literals.go"},
+		Outside:     []string{"the language outside the fragment (classes, generators, destructuring, loops, switch, try, labels, getters, with, async, modules, ASI between arbitrary statements)", "expression depth > 1 in quick / > 2 anywhere; more than 2-3 statements", "execution in a real JavaScript engine", "numeric literal kernels other than hexadecimal <= 4 digits; regular expression literals", "Precision > 0"},
+		Stubs:       []string{"fmt native on concrete args", "sort.Slice model", "sync.Pool model"},
+		Jobs: func(tier string) []Job {
+			var js []Job
+			q := tier == "quick"
+			pick := func(a, b []int) []int {
+				if q {
+					return a
+				}
+				return b
+			}
+			js = append(js, jobsN("js", "VerifJSString", pick(rng(0, 4), rng(0, 5)), "string literal body of n bytes over the escape alphabet, both quotes, allowTemplate symbolic")...)
+			js = append(js, jobsN("js", "VerifJSStringUnits", pick(rng(1, 2), rng(1, 3)), "string literal body of n units out of 36 escapes/quotes/digits")...)
+			js = append(js, jobsN("js", "VerifJSFalsyHex", pick(rng(1, 5), rng(1, 7)), "isFalsy(0x<n hex digits>)")...)
+			js = append(js, jobsN("js", "VerifJSFalsyLiteral", pick(rng(1, 5), rng(1, 7)), "isFalsy of decimal/binary/octal/string literals of n bytes under negations")...)
+			js = append(js, jobsN("js", "VerifJSHexNumber", pick(rng(1, 4), rng(1, 4)), "hexadecimalNumber keeps the integer value")...)
+			js = append(js, jobsN("js", "VerifJSExpr", []int{1}, "x=E; E of depth 1 (13 operators x 9 leaves), evaluator on symbolic values")...)
+			js = append(js, jobsN("js", "VerifJSStmts", pick([]int{1}, []int{1, 2}), "n statements out of 15 templates with leaf expressions")...)
+			js = append(js, jobsN("js", "VerifJSTail", pick([]int{1}, []int{1, 2}), "n prefix statements + one tail statement (merging into return/throw/if)")...)
+			js = append(js, Job{Pkg: "js", Fn: "VerifJSLitTwin", N: 0, ExpectFail: true, Desc: "vacuity twin (kernels)"})
+			js = append(js, Job{Pkg: "js", Fn: "VerifJSEvalTwin", N: 0, ExpectFail: true, Desc: "vacuity twin (evaluator)"})
 			return js
 		},
 	}
